@@ -236,6 +236,8 @@ def check(ctx, tier):
     obs += ctx.attempt(lambda c, cl: pure.fresh_receivers(c, cl)[0], ctx, "D-g", default=[])
     from .c18 import memo_obligations          # a stage that runs twice on one object defines every label twice
     obs += [o for o in ctx.attempt(lambda c, cl: memo_obligations(c, cl)[0], ctx, "D-h", default=[]) if "|first-run-guard|" in o.key]
+    from .c19 import prefix_choice_table
+    obs += ctx.attempt(prefix_choice_table, ctx, "D-i", default=[])
     exceptions.apply(obs)
     return {"obs": obs, "floors": [Floor("shapes_namespace call sites", n_pl, 6), Floor("prefix insertion sites", n_g, 3), Floor("emission loops", n_l, 4)],
             "explanation": "Closedness and well-formedness clauses visible in the code: every label producer receives the configured "
